@@ -191,9 +191,11 @@ def check_case(ctx, case):
         # ---- well-typed calls
         for style_seed in case["styles"]:
             for omit in (False, True):
-                made = gs.make_args(params, style_seed=style_seed, omit_defaults=omit)
+                made = gs.make_args(params, style_seed=style_seed, omit_defaults=omit, force_shadow=bool(case.get("force_shadow")))
                 if made is None:
                     continue
+                if omit and not case.get("force_shadow") and any(p["kind"] == "po" and p["has_default"] for p in params) and any(p["kind"] == "vk" for p in params):
+                    ctx.excluded_known += 1  # the known-finding pattern was reachable here and was left out by construction
                 args, kwargs, recv = made
                 for raising in (False, True):
                     rec.exc = ValueError("from body") if raising else None
@@ -312,6 +314,12 @@ def c07_case(draw):
         "lambda_annotations": draw(st.sampled_from([True, False])),
     }
     return case
+
+
+def finding_key(case, clause):
+    if case.get("force_shadow") and clause in ("result-identity", "exception-identity"):
+        return "C07:bind-posonly-default-shadowed-by-kwarg"
+    return None
 
 
 def run(ctx):
